@@ -437,14 +437,16 @@ struct Flags {
     bool nt_dup = false, nt_full_new = false, nt_erase_succ = false;
     bool f_full = false, f_full_dup = false, f_multi_erase = false, f_swap_nonempty = false, f_extract = false;
 };
-auto record(Flags const& f, bool flat, int stats, OpsCase const& k) -> void
+auto record(Flags const& f, bool flat, std::size_t cap, int stats, OpsCase const& k) -> void
 {
     if (stats > 1) {
         vf::label(flat ? "flat_set.hist.duplicate_insert" : "static_set.hist.duplicate_insert", f.nt_dup);
         vf::label(flat ? "flat_set.hist.reached_full" : "static_set.hist.reached_full", f.f_full);
         vf::label(flat ? "flat_set.hist.duplicate_insert_while_full" : "static_set.hist.duplicate_insert_while_full", f.f_full_dup);
         vf::label(flat ? "flat_set.hist.erase_absent_key_with_successor" : "static_set.hist.erase_absent_key_with_successor", f.nt_erase_succ);
-        vf::label(flat ? "flat_set.hist.range_erase_of_2_or_more" : "static_set.hist.range_erase_of_2_or_more", f.f_multi_erase);
+        if (cap >= 2) { // impossible for capacity 1
+            vf::label(flat ? "flat_set.hist.range_erase_of_2_or_more (N>=3)" : "static_set.hist.range_erase_of_2_or_more (N>=3)", f.f_multi_erase);
+        }
         vf::label(flat ? "flat_set.hist.swap_of_two_non_empty" : "static_set.hist.swap_of_two_non_empty", f.f_swap_nonempty);
         if (flat) {
             vf::label("flat_set.hist.extract_non_empty", f.f_extract);
@@ -613,7 +615,8 @@ struct Runner {
                 break;
             }
             case ERASE_RANGE: {
-                auto f = static_cast<std::ptrdiff_t>(op.a % (mx.size() + 1));
+                // first = a % (size+1), or begin() when bit 1 of c is set (biases random histories to ranges of >= 2 elements)
+                auto f = ((op.c >> 1) & 1U) != 0 ? std::ptrdiff_t{0} : static_cast<std::ptrdiff_t>(op.a % (mx.size() + 1));
                 auto l = f + static_cast<std::ptrdiff_t>(pick(op.b, mx.size() - static_cast<std::size_t>(f)));
                 fl.f_multi_erase |= (l - f) >= 2;
                 long o = 0;
@@ -834,7 +837,7 @@ struct Runner {
                 break;
             }
         }
-        record(fl, flat, stats, k);
+        record(fl, flat, N, stats, k);
         return err;
     }
 };
